@@ -177,6 +177,79 @@ pub fn run(ctx: &mut Ctx) {
             check(ctx, f, &nd, "random");
         }
     }
+    // (4) extreme sizes (run on a thread with a large stack; not shrunk), as term, sentence and task
+    for f in ALL_FMT {
+        for (ci, (label, t)) in extreme_cases().into_iter().enumerate() {
+            idx += 1;
+            if !ctx.mine(idx) {
+                continue;
+            }
+            let nd = wrap_rotating(t, ci);
+            ctx.report.eval();
+            ctx.report.bump("family.extreme-sizes");
+            ctx.report.nontrivial(&format!("{}|extreme|{}|{}", f.name(), label, ci % 3));
+            let nd2 = nd.clone();
+            match on_big_stack(move || roundtrip_failure(f, &nd2)) {
+                Some(None) => {}
+                Some(Some(why)) => ctx.report.violate(
+                    format!("C01|{}|extreme|{}", f.name(), label),
+                    format!("[{}] round trip fails for the {}-case {}: {}", f.name(), ["term", "sentence", "task"][ci % 3], label, why.chars().take(400).collect::<String>()),
+                    J::obj().set("format", f.name()).set("extreme", label.as_str()).set("wrap", ci as u64),
+                ),
+                None => ctx.report.violate(
+                    format!("C01|{}|extreme-crash|{}", f.name(), label),
+                    format!("[{}] the thread handling the extreme case {} died (stack overflow or abort-free panic outside the guard)", f.name(), label),
+                    J::obj().set("format", f.name()).set("extreme", label.as_str()).set("wrap", ci as u64),
+                ),
+            }
+        }
+    }
+    // (5) 70 000 formatted values as ONE `parse_multi` batch (the lines of a large dump)
+    for (fi, f) in ALL_FMT.iter().enumerate() {
+        if ctx.shard != fi % ctx.nshards {
+            continue;
+        }
+        let base = base_atoms(&["A", "B"]);
+        let mut items: Vec<TD> = base.clone();
+        items.extend(universe_over(&base, 2, false).into_iter().take(600));
+        let nds: Vec<ND> = items.into_iter().enumerate().map(|(i, t)| wrap_rotating(t, i)).collect();
+        let texts: Vec<String> = nds.iter().map(|nd| f.e().format_narsese(&nd.build())).collect();
+        let wants: Vec<String> = nds.iter().map(|nd| nd.canon()).collect();
+        let total = 70_000usize;
+        ctx.report.eval();
+        ctx.report.bump("family.one-batch-of-70000-lines");
+        let r = crate::guard::observe(|| {
+            let e = f.e();
+            let rs = e.parse_multi((0..total).map(|i| texts[i % texts.len()].as_str()));
+            let mut bad: Option<(usize, String)> = None;
+            if rs.len() != total {
+                bad = Some((rs.len(), format!("{} results for {} inputs", rs.len(), total)));
+            }
+            for (i, r) in rs.iter().enumerate() {
+                let got = match r {
+                    Ok(v) => canon_real_narsese(v),
+                    Err(e) => format!("Err({})", e.to_string().chars().take(80).collect::<String>()),
+                };
+                if got != wants[i % wants.len()] {
+                    bad = Some((i, format!("line {} ({:?}) = {} (expected {})", i, texts[i % texts.len()], got, wants[i % wants.len()])));
+                    break;
+                }
+            }
+            bad
+        });
+        let why = match r {
+            crate::guard::Obs::Ret(None) => None,
+            crate::guard::Obs::Ret(Some((_, w))) => Some(w),
+            crate::guard::Obs::Panic(p) => Some(format!("parse_multi panicked: {}", p)),
+        };
+        if let Some(w) = why {
+            ctx.report.violate(
+                format!("C01|{}|big-batch", f.name()),
+                format!("[{}] formatted values parsed as one batch of {} lines: {}", f.name(), total, w),
+                J::obj().set("format", f.name()).set("big_batch", total as u64),
+            );
+        }
+    }
     ctx.report.note(
         "rule",
         "a case = (format, value description); non-trivial = the value is not a bare atom term; distinct = distinct (format, canonical form)",
@@ -185,6 +258,19 @@ pub fn run(ctx: &mut Ctx) {
 
 pub fn replay(ctx: &mut Ctx, d: &J) -> Option<()> {
     let f = fmt_of(d)?;
+    if let Some(label) = jstr(d, "extreme") {
+        let nd = wrap_rotating(extreme_from_label(&label)?, d.get("wrap")?.as_i128()? as usize);
+        match on_big_stack(move || roundtrip_failure(f, &nd)) {
+            Some(None) => {}
+            Some(Some(w)) => ctx.report.violate(format!("C01|{}|extreme|{}", f.name(), label), w, d.clone()),
+            None => ctx.report.violate(format!("C01|{}|extreme-crash|{}", f.name(), label), "the thread died".into(), d.clone()),
+        }
+        return Some(());
+    }
+    if d.get("big_batch").is_some() {
+        // (the batch family is re-run as a whole by the check itself; nothing to replay in isolation)
+        return Some(());
+    }
     let nd = nd_from_json(d.get("value")?)?;
     if let Some(why) = roundtrip_failure(f, &nd) {
         ctx.report.violate(format!("C01|{}|{}", f.name(), nd.canon()), why, d.clone());
